@@ -93,6 +93,11 @@ CHECKS = {
     technique='runtime monitoring: sign-option x key-state matrix through the real loader/CLI with a real GnuPG home; the written files are judged by gpg itself (--verify, --decrypt) and by the independent reader (post-condition, armor scan of every sub-Manifest)',
     text='For generated layouts (nested, split and compressed sub-Manifests, hostile paths, plain or compressed top-level Manifest) and every combination of sign {unset,on,off} x originally signed/unsigned x key id {default, explicit, wrong} x secret key {usable, absent} the top-level Manifest written by update+save must be a cleartext-signed message exactly when signing was requested or inherited; gpg --verify must accept it with the expected key, gpg --decrypt must yield the entries in the file, those entries must describe the current tree, no sub-Manifest may contain armor, and an impossible signing must raise OpenPGPSigningFailure without leaving a plain Manifest with entries.',
     note='Trusted: GnuPG 2.2.40 + gpg-agent, vendored test key, independent reader. A top-level Manifest that did not have to be rewritten is not judged.'),
+ 'C19': dict(
+    category='exploration', design='3 C19',
+    technique='runtime monitoring: `gemato create/update -p PROFILE` on generated ebuild repositories under permuted os.walk order vs an independent policy model (placement, default IGNOREs, entry types, hashes, sorting, compression) + independent post-condition + fresh default-profile verification',
+    text='Generated repositories (categories x packages with ebuilds, metadata.xml, nested files/, eclass, licenses, profiles, metadata with dtd/glsa/news/xml-schema/md5-cache, ignored distfiles/local/packages) are run through create and 0..3 rounds of edits + update for each profile and override combination: the directories holding a Manifest, the default IGNORE entries of new Manifests, every entry type, the hash set, sortedness and the compression state of every sub-Manifest must follow the documented policy, the entries must describe the tree, and a plain default-profile loader must verify the result.',
+    note='Trusted: vf/model/policy.py (written from the profile documentation), independent reader. U12: top-level directories with sub-directories but no package, and metadata.xml outside category/package directories. Existing Manifests are never expected to disappear on update.'),
 }
 
 def main():
